@@ -102,11 +102,11 @@ def columnsLayout (v : Variant) (o : ColumnsOpts) (measured : List Int) (maxWidt
         match o.width with
         | some cwid =>
           if v.columnsZeroCount then
-            -- today: `max_width // (width + padding)` — raises for a zero divisor, may be 0 columns
+            -- as found (before fix f7ecf83): `max_width // (width + padding)` — raises for a zero divisor, may be 0 columns
             if cwid + widthPadding == 0 then .error .zeroDivision
             else .ok (maxWidth / (cwid + widthPadding)).toNat
           else
-            -- repaired: `max(1, max_width // max(1, width + padding))`
+            -- repaired (fix f7ecf83, what /repo contains now): `max(1, max_width // max(1, width + padding))`
             .ok (max 1 (maxWidth / (max 1 (cwid + widthPadding))).toNat)
         | none => .ok (searchLoop o.columnFirst widths widthPadding maxWidth (n + 1) n)
       match count with
